@@ -274,6 +274,8 @@ def rand_name(rng, used):
             # a name sharing a prefix with an existing one (abbreviation ambiguity, exact-match priority)
             base = rng.choice(sorted(used))
             s = base[:rng.randrange(1, len(base) + 1)] + s[:rng.randrange(0, 3)]
+        if b":" in s:
+            continue        # ':' separates sub-option prefixes; names are identifiers (an own option "a:" has no ini key)
         if s.lower() not in used and not s.startswith(b"-"):
             used.add(s.lower())
             return s
